@@ -136,7 +136,8 @@ type vC15Run struct {
 // depend on the triple, not on some concatenation of it.
 func (r *vC15Run) real(model string) string {
 	switch model {
-	case "*", "__cursors":
+	case "*", "__cursors", "alice", "bob":
+		// (consumer ids go over the wire as they are: an entry on a consumer id is an entry on that very name)
 		return model
 	case "s1":
 		return fmt.Sprintf("b%ds", r.id)
@@ -151,7 +152,7 @@ func (r *vC15Run) real(model string) string {
 }
 
 func (r *vC15Run) model(real string) string {
-	for _, m := range []string{"s1", "s2", "j1", "j2", "*", "__cursors"} {
+	for _, m := range []string{"s1", "s2", "j1", "j2", "*", "__cursors", "alice", "bob"} {
 		if r.real(m) == real {
 			return m
 		}
@@ -653,6 +654,27 @@ func (r *vC15Run) callTLS(c map[string]interface{}) (string, string) {
 			}()
 			r.subs = append(r.subs, held)
 		}
+	case "JoinConsumerGroup":
+		_, err = g.JoinConsumerGroup(ctx, &client.JoinConsumerGroupRequest{GroupId: r.real("g1"), ConsumerId: vStr(c, "c"),
+			Streams: []string{stream}})
+	case "LeaveConsumerGroup":
+		_, err = g.LeaveConsumerGroup(ctx, &client.LeaveConsumerGroupRequest{GroupId: r.real("g1"), ConsumerId: vStr(c, "c")})
+	case "FetchConsumerGroupAssignments":
+		epoch := uint64(0)
+		if grp := r.srv.metadata.GetConsumerGroup(r.real("g1")); grp != nil {
+			grp.mu.RLock()
+			epoch = grp.epoch
+			grp.mu.RUnlock()
+		}
+		_, err = g.FetchConsumerGroupAssignments(ctx, &client.FetchConsumerGroupAssignmentsRequest{GroupId: r.real("g1"),
+			ConsumerId: vStr(c, "c"), Epoch: epoch})
+	case "ReportConsumerGroupCoordinator":
+		coord, cepoch := "none", uint64(0)
+		if grp := r.srv.metadata.GetConsumerGroup(r.real("g1")); grp != nil {
+			coord, cepoch = grp.GetCoordinator()
+		}
+		_, err = g.ReportConsumerGroupCoordinator(ctx, &client.ReportConsumerGroupCoordinatorRequest{GroupId: r.real("g1"),
+			ConsumerId: vStr(c, "c"), Coordinator: coord, Epoch: cepoch})
 	default:
 		return "Unsupported", "not driven over TLS: " + m
 	}
